@@ -77,6 +77,9 @@ DEFAULT_PROFILE: Dict[str, Any] = {
     'imports_last': False,    # every module defines first and imports at the bottom (so a module that is read while half built
                               # - import cycles - has already defined everything it defines itself)
     'back_edge_bottom': False,  # cyclic worlds: the imports that close a cycle sit at the bottom of the module, after every definition
+    'submodule_clash': 0.0,   # probability that a package __init__ defines a function named like a sub-module nothing imports
+    'private_defs': 0.0,      # probability that a module-level definition has a _private name
+    'module_deco': 0.0,       # probability per module-level function of a @staticmethod / @classmethod decorator
     'case_twins': 0.0,        # probability per class of members whose names differ only in case
     'dup_mixed': False,       # duplicates inside a class body may change kind (`x = None` then `def x(self)` / `@property`)
     'prefer_local': 0.0,      # probability per import statement of importing only names the target module defines itself
@@ -188,12 +191,19 @@ class _Gen:
         self.modules[fullname] = {'pkg': pkg, 'body': [], 'all': None, 'docformat': None, 'mid': self.fid()}
         self.ns[fullname] = {}
 
+    def _private_name(self, ident: int) -> bool:
+        # module-level names with a leading underscore: not exported by `import *` unless __all__ lists them
+        pr = self.p.get('private_defs', 0)
+        return bool(pr) and self.rng.sub('private-def').sub(ident).chance(pr)
+
     # -- definitions
     def mk_class(self, rng: Rng, mod: str, scope_ns: Dict[str, List[Any]], outer: Optional[int] = None,
                  depth: int = 0, body_so_far: Optional[List[Any]] = None) -> Dict[str, Any]:
         p = self.p
         cid = self.fid()
         name = f'C{cid}'
+        if outer is None and self._private_name(cid):
+            name = '_' + name
         bases: List[Dict[str, Any]] = []
         cands = self.class_refs(rng, mod, scope_ns, outer)
         if cands and rng.chance(0.7):
@@ -390,9 +400,14 @@ class _Gen:
             name = rng.choice(pool) if pool else f'f{fid_}'
         else:
             name = f'f{fid_}'
+            if outer is None and self._private_name(fid_):
+                name = '_' + name
         deco = None
         if outer is not None:
             deco = rng.weighted([(None, 6), ('classmethod', 1), ('staticmethod', 1), ('property', 1)])
+        elif self.p.get('module_deco', 0) and rng.sub('module-deco').chance(self.p['module_deco']):
+            # helpers written as module-level functions wrapped in staticmethod / classmethod (to be injected into classes)
+            deco = rng.sub('module-deco-kind').choice(['staticmethod', 'classmethod'])
         nodoc = bool(self.p['method_pool'] and outer is not None and rng.chance(0.4))
         # an explicitly empty docstring: Python's lookup stops there (``__doc__ == ''``), the member counts as undocumented
         emptydoc = bool(self.p['method_pool'] and outer is not None and not nodoc and rng.chance(0.2))
@@ -412,6 +427,8 @@ class _Gen:
                scope_ns: Optional[Dict[str, List[Any]]] = None) -> Dict[str, Any]:
         vid = self.fid()
         name = f'v{vid}'
+        if outer is None and self._private_name(vid):
+            name = '_' + name
         st = {'k': 'var', 'id': vid, 'name': name, 'ann': None}
         if self.p.get('var_ann', 0) and rng.chance(self.p['var_ann']):
             cands = self.class_refs(rng, mod, scope_ns if scope_ns is not None else self.ns[mod], outer)
@@ -825,6 +842,24 @@ class _Gen:
                     m['all'] = (m['all'] or []) + [tail]
                     self.exotic.add('module_reexport')
 
+    def submodule_clash(self, rng: Rng) -> None:
+        """A package whose __init__ defines a function named like one of its own sub-modules (``def main()`` next to
+        ``pkg/main.py``) - the sub-module is one that nothing imports, so it is still waiting to be analysed when the
+        package body is.  Binding truth is not maintained for the clash: the world is marked exotic."""
+        imported = {b for (_, b) in self.edges}
+        cands = [m for m in self.modules if self.parent_of(m) is not None and not self.modules[m]['pkg'] and m not in imported
+                 and m.rpartition('.')[2] not in self.ns[self.parent_of(m)]]
+        if not cands:
+            return
+        sub = rng.choice(sorted(cands))
+        par = self.parent_of(sub)
+        st = self.mk_func(rng, par)
+        st['name'] = sub.rpartition('.')[2]
+        self.defs[st['id']]['name'] = st['name']
+        self.defs[st['id']]['collides_with'] = sub
+        self.modules[par]['body'].append(st)
+        self.exotic.add('submodule_clash')
+
     def zope_knob(self, rng: Rng, order: List[str]) -> None:
         """Interfaces in one module; sub-interfaces and implementers elsewhere, reached
         by every import route."""
@@ -987,6 +1022,8 @@ class _Gen:
             self.zope_knob(self.rng.sub('zope'), order)
         if self.p['cyclic']:
             self.add_back_edges(order)
+        if self.p.get('submodule_clash', 0) and self.rng.sub('subclash?').chance(self.p['submodule_clash']):
+            self.submodule_clash(self.rng.sub('subclash'))
         truth = {
             'exotic': sorted(self.exotic),
             'import_order': order,
